@@ -170,8 +170,19 @@ func (fc *FnCtx) oblige(kind string, goal Term, text string, tags []string, labe
 	}
 	p := fc.pos()
 	o := &Obligation{Name: name, Func: fc.key, Kind: kind, Tags: tags, Label: label, Goal: implies(fc.reach, goal), LogLen: len(fc.log), Pos: p, Text: text}
+	fc.blockSlice(o)
 	fc.obls = append(fc.obls, o)
 	fc.assume(goal)
+}
+
+// blockSlice: an obligation generated in block b needs only the facts generated in blocks that can reach b (and the unguarded
+// ones); it is proved in a session of its own block with exactly those. Dropping assumptions is always sound.
+func (fc *FnCtx) blockSlice(o *Obligation) {
+	if noSlice || fc.curBlock == nil || o.Slice != nil {
+		return
+	}
+	o.Slice = fc.ancestors(fc.curBlock)
+	o.SliceKey = fmt.Sprintf("b%d", fc.curBlock.Index)
 }
 
 // obligeNoAssumeRaw records an obligation without assuming it afterwards (the caller assumes once for a whole split).
@@ -186,6 +197,7 @@ func (fc *FnCtx) obligeNoAssumeRaw(kind string, goal Term, text string, tags []s
 		name += "/" + label
 	}
 	o := &Obligation{Name: name, Func: fc.key, Kind: kind, Tags: tags, Label: label, Goal: implies(fc.reach, goal), LogLen: len(fc.log), Pos: fc.pos(), Text: text}
+	fc.blockSlice(o)
 	fc.obls = append(fc.obls, o)
 }
 
